@@ -121,7 +121,7 @@ func runRules(c *runner.Ctx, idx *int) {
 				sc := direct("", in)
 				sc.Kind, sc.Chunk, sc.Thorough = "rulegroup", g, c.Thorough()
 				c.Heartbeat(sc)
-				evalRules(c, c, w, group, in)
+				evalRules(c, c, w, group, in, sc)
 			})
 			scen.Close(w)
 		}
@@ -243,11 +243,12 @@ func ruleScenario(list []string, multi bool, in []byte) Scenario {
 }
 
 // evalRules judges one input against every list of a group (rc may be nil).
-func evalRules(s sink, rc *runner.Ctx, w coraza.WAF, group [][]string, master []byte) {
+// gsc is the scenario recorded for failures that concern the whole transaction.
+func evalRules(s sink, rc *runner.Ctx, w coraza.WAF, group [][]string, master []byte, gsc Scenario) {
 	in := heapString(master)
 	seen, pan := seenValues(w, in)
 	if pan != "" {
-		s.Violation("panic:rule:"+digits.ReplaceAllString(pan, "N"), "transaction panics with ARGS_GET:a="+q(in)+": "+pan, ruleScenario(group[0], true, master))
+		s.Violation(panicSig(pan), "transaction panics with ARGS_GET:a="+q(in)+": "+pan, gsc)
 		return
 	}
 	if in != string(master) {
@@ -255,7 +256,7 @@ func evalRules(s sink, rc *runner.Ctx, w coraza.WAF, group [][]string, master []
 		if t := mutator(nil, []string{string(master)}); t != "" {
 			sig = t + ":input-modified"
 		}
-		s.Violation(sig, fmt.Sprintf("the argument value handed to the transaction was modified: passed %s, afterwards %s", q(string(master)), q(in)), ruleScenario(group[0], true, master))
+		s.Violation(sig, fmt.Sprintf("the argument value handed to the transaction was modified: passed %s, afterwards %s", q(string(master)), q(in)), gsc)
 		return
 	}
 	for j, list := range group {
@@ -343,7 +344,9 @@ func replayGroup(col *collector, thorough bool, g int, in []byte) {
 		return
 	}
 	defer scen.Close(w)
-	evalRules(col, nil, w, group, in)
+	sc := direct("", in)
+	sc.Kind, sc.Chunk, sc.Thorough = "rulegroup", g, thorough
+	evalRules(col, nil, w, group, in, sc)
 }
 
 func replayRule(col *collector, list []string, multi bool, in []byte) {
@@ -354,5 +357,5 @@ func replayRule(col *collector, list []string, multi bool, in []byte) {
 		return
 	}
 	defer scen.Close(w)
-	evalRules(col, nil, w, group, in)
+	evalRules(col, nil, w, group, in, ruleScenario(list, multi, in))
 }
